@@ -73,6 +73,8 @@ def decorate(tokens, rng, variant):
 
 
 def random_skeleton(rng, max_elems=25, max_depth=4):
+    if rng.random() < 0.1:
+        max_elems, max_depth = 70, 7
     budget = [rng.randint(6, max_elems)]
 
     def stmts(depth):
